@@ -1,5 +1,4 @@
 import ClaripyProofs.Lemmas.FP.NarrowRound
-import Mathlib.Tactic.Ring
 /-!
 # No false tie from a relative gap
 
@@ -53,15 +52,15 @@ theorem no_false_tie_of_gap (sc den : Nat) (hden : 0 < den) (hR : sc < sval F F.
       generalize 2 ^ 897 = Y at *
       generalize hdd' : den * 2 ^ sh = dd at *
       have e1 : (M * 2 ^ 27 + 1) * (2 ^ sh * Y) * den = (2 ^ 27 * (M * dd) + dd) * Y := by
-        rw [← hdd']; ring
-      have e2 : sc * (2 ^ 28 * Y) = (2 ^ 28 * sc) * Y := by ring
+        rw [← hdd']; grind
+      have e2 : sc * (2 ^ 28 * Y) = (2 ^ 28 * sc) * Y := by grind
       rw [e1, e2]
       exact Nat.mul_le_mul_right _ (by omega)
     have := sval_mono D hle
     rw [hgP] at this
     generalize 2 ^ (sh + 897) = Z at *
-    have e3 : (M * 2 ^ 27 + 1) * Z = 2 ^ 27 * (M * Z) + Z := by ring
-    have e4 : M * (2 ^ 28 * Z) = 2 ^ 28 * (M * Z) := by ring
+    have e3 : (M * 2 ^ 27 + 1) * Z = 2 ^ 27 * (M * Z) + Z := by grind
+    have e4 : M * (2 ^ 28 * Z) = 2 ^ 28 * (M * Z) := by grind
     rw [e3] at this; rw [e4] at h
     omega
   · -- x below the midpoint
@@ -75,10 +74,10 @@ theorem no_false_tie_of_gap (sc den : Nat) (hden : 0 < den) (hR : sc < sval F F.
       generalize hdd' : den * 2 ^ sh = dd at *
       have hMdd : dd ≤ M * dd := Nat.le_mul_of_pos_left _ hM1
       have e1 : (M * 2 ^ 27 - 1) * (2 ^ sh * Y) * den = (2 ^ 27 * (M * dd) - dd) * Y := by
-        have a1 : M * 2 ^ 27 * (2 ^ sh * Y) * den = 2 ^ 27 * (M * (den * 2 ^ sh)) * Y := by ring
-        have a2 : 1 * (2 ^ sh * Y) * den = den * 2 ^ sh * Y := by ring
+        have a1 : M * 2 ^ 27 * (2 ^ sh * Y) * den = 2 ^ 27 * (M * (den * 2 ^ sh)) * Y := by grind
+        have a2 : 1 * (2 ^ sh * Y) * den = den * 2 ^ sh * Y := by grind
         rw [← hdd', Nat.sub_mul, Nat.sub_mul, Nat.sub_mul, a1, a2]
-      have e2 : sc * (2 ^ 28 * Y) = (2 ^ 28 * sc) * Y := by ring
+      have e2 : sc * (2 ^ 28 * Y) = (2 ^ 28 * sc) * Y := by grind
       rw [e1, e2]
       exact Nat.mul_le_mul_right _ (by omega)
     have := sval_mono D hle
@@ -86,9 +85,9 @@ theorem no_false_tie_of_gap (sc den : Nat) (hden : 0 < den) (hR : sc < sval F F.
     generalize 2 ^ (sh + 897) = Z at *
     have hMZ : Z ≤ M * Z := Nat.le_mul_of_pos_left _ hM1
     have e3 : (M * 2 ^ 27 - 1) * Z = 2 ^ 27 * (M * Z) - Z := by
-      have a3 : M * 2 ^ 27 * Z = 2 ^ 27 * (M * Z) := by ring
+      have a3 : M * 2 ^ 27 * Z = 2 ^ 27 * (M * Z) := by grind
       rw [Nat.sub_mul, Nat.one_mul, a3]
-    have e4 : M * (2 ^ 28 * Z) = 2 ^ 28 * (M * Z) := by ring
+    have e4 : M * (2 ^ 28 * Z) = 2 ^ 28 * (M * Z) := by grind
     rw [e3] at this; rw [e4] at h
     omega
 
